@@ -68,6 +68,7 @@ func catchPickIndex(m *catchment.CoreModel, i int) {
 
 type catchInst struct {
 	m       *catchment.CoreModel
+	full    *catchment.Model // non-nil when built through the configured-and-cloned path
 	path    string
 	prm     parameters.Map
 	pus     planningunit.Ids
@@ -75,7 +76,52 @@ type catchInst struct {
 	offGrid int
 }
 
+// every third instance opened with parameters is built the way a run's model really is: a catchment.Model configured
+// through its parameter map (data source path and limit), initialised, and then DEEP-CLONED twice (Runner.run clones
+// the annealer, whose explorer clones its model; the multi-objective explorer clones once more for its candidate
+// model).  The instance works on the clone of the clone; [full] is what an explorer is handed so that its own
+// DeepClone calls dispatch to catchment.Model.DeepClone.
+var catchOpenCount int
+
+func catchOpenCloned(dataPath string, prm parameters.Map) *catchInst {
+	wd, _ := os.Getwd()
+	abs, _ := filepath.Abs(dataPath)
+	rel, err := filepath.Rel(wd, abs)
+	if err != nil {
+		panic(err)
+	}
+	full := parameters.Map{"DataSourcePath": rel}
+	for k, v := range prm {
+		full[k] = v
+	}
+	pm := catchment.NewModel().WithParameters(full)
+	if errs := pm.ParameterErrors(); errs != nil {
+		panic("parameters rejected: " + errs.Error())
+	}
+	pm.Initialise(model.AsIs)
+	cl := pm.DeepClone().DeepClone().(*catchment.Model)
+	cl.Initialise(model.AsIs)
+	c := &catchInst{m: &cl.CoreModel, full: cl, path: dataPath, prm: prm}
+	c.pus = c.m.PlanningUnits()
+	c.nact = len(c.m.ManagementActions())
+	return c
+}
+
+// the model an explorer is given for this instance
+func (c *catchInst) forExplorer() model.Model {
+	if c.full != nil {
+		return c.full
+	}
+	return c.m
+}
+
 func catchOpen(dataPath string, prm parameters.Map) *catchInst {
+	if prm != nil {
+		catchOpenCount++
+		if catchOpenCount%3 == 0 {
+			return catchOpenCloned(dataPath, prm)
+		}
+	}
 	ds := csv.NewDataSet("CatchmentModel")
 	if err := ds.Load(dataPath); err != nil {
 		panic("cannot load " + dataPath + ": " + err.Error())
